@@ -154,6 +154,17 @@ def check_constructor(mir_text, src, label, entry, oid, file_backed):
                 okf, _ = prove(ex, e.guard, acc, same(have, want))
             if not okf:
                 viol.append({"field": k, "have": repr(have)[:100], "why": "the constructed Memory's `%s` is not what the layout contract states" % k})
+        # descriptive flags: is_map / is_ondisk / is_map_file / is_map_anon are functions of Memory.flag
+        fl_ = got.get("flag")
+        tags_ = []
+        src_fl = eff_by_result(effs, fl_)
+        if src_fl is not None and "BitOr" in src_fl["func"]:
+            tags_ = sorted(getattr(a_, "tag", "?").split("::")[-1] for a_ in src_fl["args"])
+        elif isinstance(fl_, Sym):
+            tags_ = [fl_.tag.split("::")[-1]]
+        want_tags = ["MMAP", "ON_DISK"] if file_backed else ["MMAP"]
+        if tags_ != want_tags:
+            viol.append({"field": "flag", "have": tags_, "why": "Memory.flag (what is_map / is_ondisk / is_map_file / is_map_anon report) is not %s" % " | ".join(want_tags)})
         hp = got.get("header_ptr")
         if uni:
             okh = isinstance(hp, Enum) and hp.discr == 0 and prove(ex, e.guard, acc, z64(hp.variants[0][0]) == f["hoff"])[0]
@@ -201,6 +212,45 @@ def check_data_offset_in(mir_text, src):
                  holds=not viol and n > 0, witnesses=viol[:2], vacuous=(n == 0))]
 
 
+def check_capacity_fn(mir_text, src):
+    """L3: check_capacity(reserved, unify, capacity) refuses exactly when the capacity cannot hold the prefix"""
+    prog = sym.Program(mir_text, src)
+    cfg = {"mir_text": mir_text, "mem_layouts": {}, "layouts": {("size_of", "H"): H_SIZE, ("align_of", "H"): 8}, "summaries": {}}
+    ex = RExec(prog, cfg)
+    names = [n for n in prog.raw if re.search(r"(^|::)check_capacity$", n)]
+    if len(names) != 1:
+        raise Unsupported("check_capacity not found / ambiguous: %s" % names)
+    fn = prog.fn(names[0])
+    fr = Frame(fn, ("E",), {}, gen=["H"])
+    res32 = z3.BitVec("reserved", 32)
+    res = z3.ZeroExt(32, res32)
+    unify = z3.Bool("unify")
+    cap = z3.BitVec("capacity", 64)
+    fr.locals[1], fr.locals[2], fr.locals[3] = res, unify, cap
+    ends = ex.run([fr], [])
+    viol = []
+    n = 0
+    hoff = ((res + 7) & ~bv(7, 64)) + 8
+    prefix = z3.If(unify, hoff + H_SIZE, res + 1)
+    want_off = z3.If(unify, hoff, res + 1)
+    bound = [z3.ULE(res, RES_MAX), z3.ULE(cap, bv(0xFFFFFFFF, 64))]
+    for e in ends:
+        if e.kind != "done":
+            continue
+        n += 1
+        is_err = is_err_of(e.info)
+        ok1, _ = prove(ex, e.guard, bound, is_err == z3.UGT(prefix, cap))
+        if not ok1:
+            viol.append({"why": "check_capacity does not refuse exactly when prefix_size > capacity"})
+        if feasible(ex, e.guard, bound + [z3.Not(is_err)]) == z3.sat:
+            ok2, _ = prove(ex, e.guard, bound + [z3.Not(is_err)], z64(e.info.variants[0][0]) == want_off)
+            if not ok2:
+                viol.append({"why": "check_capacity returns a header offset other than align8(reserved)+8 (unified) / reserved+1 (plain)"})
+    return [dict(function=names[0], paths=n, ok_paths=n, id="L3",
+                 text="check_capacity(reserved, unify, capacity): Err iff the prefix (align8(reserved)+8+size_of(Header) unified, reserved+1 plain) exceeds the capacity, else the header offset (reserved <= 2^20, capacity <= u32::MAX)",
+                 holds=not viol and n > 0, witnesses=viol[:2], vacuous=(n < 2))]
+
+
 def main():
     mir_text = open(sys.argv[1]).read()
     mir_text = re.sub(r"// MIR FOR CTFE\nfn .*?^\}\n", "", mir_text, flags=re.S | re.M)
@@ -209,6 +259,7 @@ def main():
     t0 = time.time()
     try:
         out["obligations"] += check_data_offset_in(mir_text, src)
+        out["obligations"] += check_capacity_fn(mir_text, src)
         out["obligations"] += check_constructor(mir_text, src, "map_mut_in (new file)", r"::map_mut_in$", "L1", True)
         out["obligations"] += check_constructor(mir_text, src, "map_anon", r"^memory::.*::map_anon$", "L2", False)
     except Unsupported as e:
